@@ -176,10 +176,10 @@ func WConfig(prop, tier string) *Config {
 			"ts_execute_all_bot", "ts_execute_all_plus_missing_bot", "ts_execute_all_twice", "ts_execute_all_bot_at_3", "ts_execute_all_bot_at_8", "ts_spot_limitsell_unmet_own1", "cfg_perp_maxpos0", "price_atom_3", "price_atom_8", "nofeed", "empty"}
 		cfg.Oracles = []*Oracle{OracleC20()}
 		if thorough {
-			cfg.Phases = []Phase{{Name: "full-depth3", Roots: []string{"R0", "R1"}, Ops: ops, Depth: 3, Dev: 3},
+			cfg.Phases = []Phase{{Name: "full-depth3", Roots: []string{"R0", "R1", "R12"}, Ops: ops, Depth: 3, Dev: 3},
 				{Name: "core-depth4", Roots: []string{"R0"}, Ops: []string{"ts_spot_limitbuy_met_own1", "ts_spot_stoploss_unmet_own1", "ts_perp_long_met_own1", "ts_perp_long_unmet_own1", "ts_perp_long_met_huge_own1", "ts_perp_short_unmet_own1", "ts_perp_long_met_own2", "ts_update_perp_first_by_own1", "ts_cancel_all_by_own1", "ts_cancel_spot_first_by_bot", "ts_execute_all_bot", "ts_execute_all_twice", "cfg_perp_maxpos0", "price_atom_3"}, Depth: 4, Dev: 3}}
 		} else {
-			cfg.Phases = []Phase{{Name: "full-depth2", Roots: []string{"R0", "R1"}, Ops: ops, Depth: 2, Dev: 2},
+			cfg.Phases = []Phase{{Name: "full-depth2", Roots: []string{"R0", "R1", "R12"}, Ops: ops, Depth: 2, Dev: 2},
 				{Name: "core-depth3", Roots: []string{"R0"}, Ops: []string{"ts_spot_limitbuy_met_own1", "ts_spot_stoploss_unmet_own1", "ts_perp_long_met_own1", "ts_perp_long_met_huge_own1", "ts_perp_short_unmet_own1", "ts_perp_long_met_own2", "ts_spot_limitbuy_met_own2", "ts_cancel_everyones_by_own2", "ts_cancel_all_by_own1", "ts_execute_all_bot", "cfg_perp_maxpos0", "price_atom_3"}, Depth: 3, Dev: 3}}
 		}
 	case "C10":
